@@ -41,6 +41,14 @@ def _observe(ts, kw, sparse):
         o["summary_keys"] = sorted(summ)
         if not sparse:
             o["rprob"] = [enc.num(rp.recurrence_probability(lag)) for lag in range(min(3, rp.N))]
+        # the resampled distributions (confidence bounds) are derived FROM the histograms: afterwards the
+        # histograms are still the run-length counts
+        np.random.seed(len(o["diag"]))
+        rs_d, rs_v = rp.resample_diagline_dist(7), rp.resample_vertline_dist(7)
+        o["rs_mass"] = [int(np.sum(rs_d)), int(np.sum(rs_v))]
+        o["diag2"] = enc.ints(rp.diagline_dist())
+        o["vert2"] = enc.ints(rp.vertline_dist())
+        o["maxd2"], o["maxv2"] = int(rp.max_diaglength()), int(rp.max_vertlength())
     except Exception as ex:
         o["exc"] = type(ex).__name__
     return o
